@@ -8,7 +8,9 @@ import (
 	"strings"
 	"time"
 
+	"github.com/decred/dcrd/dcrec/secp256k1/v4"
 	"github.com/elnosh/gonuts/cashu"
+	"github.com/elnosh/gonuts/cashu/nuts/nut20"
 	"github.com/elnosh/gonuts/cashu/nuts/nut04"
 	"github.com/elnosh/gonuts/cashu/nuts/nut05"
 	"github.com/elnosh/gonuts/cashu/nuts/nut07"
@@ -150,6 +152,7 @@ func (w *World) RequestMintQuote(amount uint64, lockPriv *big.Int) (*MMintQuote,
 	}
 	q, err := w.Mint.RequestMintQuote(req)
 	w.M.Steps++
+	w.checkMintLimits(amount, err)
 	if err != nil {
 		return nil, err
 	}
@@ -174,6 +177,37 @@ func (w *World) RequestMintQuote(amount uint64, lockPriv *big.Int) (*MMintQuote,
 		}
 	}
 	return mq, nil
+}
+
+// checkMintLimits compares the accept/refuse decision with the configured limits (C16), using big integers.
+func (w *World) checkMintLimits(amount uint64, err error) {
+	lim := w.Cfg.Limits
+	mustRefuse, why := false, ""
+	if lim.MintingSettings.MaxAmount > 0 && amount > lim.MintingSettings.MaxAmount {
+		mustRefuse, why = true, "over_mint_max"
+	}
+	if lim.MaxBalance > 0 {
+		bal := new(big.Int).SetUint64(w.M.IssuedTotal())
+		bal.Sub(bal, new(big.Int).SetUint64(w.M.RedeemedTotal()))
+		bal.Add(bal, new(big.Int).SetUint64(amount))
+		if bal.Cmp(new(big.Int).SetUint64(lim.MaxBalance)) > 0 {
+			mustRefuse = true
+			if why == "" {
+				why = "over_max_balance"
+				if new(big.Int).Rsh(bal, 64).Sign() != 0 {
+					why = "over_max_balance_with_uint64_wrap"
+				}
+			}
+		}
+	}
+	if mustRefuse && err == nil {
+		w.Flag("C16", "mint_quote_accepted|"+why, "amount %d accepted with limits %+v, issued %d redeemed %d", amount, lim, w.M.IssuedTotal(), w.M.RedeemedTotal())
+	}
+	if !mustRefuse && err != nil && amount <= 1<<30 {
+		if ce, ok := err.(cashu.Error); ok && (ce.Code == cashu.AmountLimitExceeded || ce.Code == cashu.MintingDisabledErrCode) {
+			w.Flag("C16", "mint_quote_refused_within_limits", "amount %d refused (%v) with limits %+v, issued %d redeemed %d", amount, err, lim, w.M.IssuedTotal(), w.M.RedeemedTotal())
+		}
+	}
 }
 
 func (w *World) waitSubscribed(hash string) {
@@ -260,6 +294,16 @@ func Nut20Valid(priv *big.Int, quoteID string, outs cashu.BlindedMessages, sigHe
 		msg += o.B_
 	}
 	return ref.SchnorrVerify(ref.BaseMul(priv), sha256sum([]byte(msg)), sig)
+}
+
+// SignNut20Lib signs with the repository's own helper nut20.SignMintQuote (sufficiency direction).
+func SignNut20Lib(priv *big.Int, quoteID string, outs cashu.BlindedMessages) string {
+	k := secp256k1.PrivKeyFromBytes(ref.Scalar32(priv))
+	sig, err := nut20.SignMintQuote(k, quoteID, outs)
+	if err != nil {
+		return ""
+	}
+	return hex.EncodeToString(sig.Serialize())
 }
 
 // MintTokens submits outputs for a quote. The model is updated from the response.
@@ -419,6 +463,24 @@ func (w *World) RequestMeltQuote(request string, mppMsat uint64) (*MMeltQuote, e
 	}
 	q, err := w.Mint.RequestMeltQuote(req)
 	w.M.Steps++
+	if x := w.Cfg.Limits.MeltingSettings.MaxAmount; x > 0 {
+		if inv := w.Net.InvoiceByRequest(request); inv != nil {
+			msat := inv.AmountMsat
+			if mppMsat > 0 {
+				msat = mppMsat
+			}
+			// the quote amount is the number of whole sats needed to cover msat
+			over := (msat+999)/1000 > x
+			if over && err == nil {
+				w.Flag("C16", "melt_quote_accepted_over_melt_max", "%d msat accepted with melt max %d (quote amount %d)", msat, x, q.Amount)
+			}
+			if !over && err != nil {
+				if ce, ok := err.(cashu.Error); ok && ce.Code == cashu.AmountLimitExceeded {
+					w.Flag("C16", "melt_quote_refused_within_melt_max", "%d msat refused with melt max %d", msat, x)
+				}
+			}
+		}
+	}
 	if err != nil {
 		return nil, err
 	}
